@@ -48,8 +48,12 @@ CTX = Ctx()
 FEAS_TIMEOUT = 30.0
 
 
-def _solve(cons, extra, q, want_model):
-    s = z3.SolverFor("QF_NRA")
+STRATEGIES = ("nra", "smt")      # portfolio: z3's QF_NRA strategy (nlsat first) and the SMT core with its non-linear lemmas (Groebner / tangents);
+                                 # each decides goals the other needs a minute for; both run, the first definite answer wins
+
+
+def _solve(cons, extra, q, want_model, strategy="nra"):
+    s = z3.SolverFor("QF_NRA") if strategy == "nra" else z3.SimpleSolver()
     s.add(cons)
     s.add(extra)
     t = time.time()
@@ -70,32 +74,74 @@ def _solve(cons, extra, q, want_model):
                     model[d.name()] = str(v)
             except Exception:
                 model[d.name()] = str(v)
-    q.put((str(r), time.time() - t, model))
+    q.put((str(r), time.time() - t, model, strategy))
 
 
-def hard_check(cons, extra, timeout, want_model=False):
-    """one query in a forked child that is killed at the deadline (z3's own timeout is not honoured inside nlsat)"""
-    q = _MP.Queue()
-    p = _MP.Process(target=_solve, args=(list(cons), extra, q, want_model))
-    p.start()
-    t0 = time.time()
-    res = None
-    while time.time() - t0 < timeout:
+def _race(cons, extra, want_model):
+    """start one forked child per strategy; returns list of (proc, queue)"""
+    out = []
+    for st in STRATEGIES:
+        q = _MP.Queue()
+        p = _MP.Process(target=_solve, args=(list(cons), extra, q, want_model, st))
+        p.start()
+        out.append((p, q))
+    return out
+
+
+def _poll(race):
+    """(result or None, all_finished): the first sat/unsat wins; 'unknown' only once every strategy has given up"""
+    alive = False
+    unknown = None
+    for p, q in race:
+        res = None
         try:
-            res = q.get(timeout=0.05)
-            break
+            res = q.get_nowait()
         except Exception:
-            if not p.is_alive():
+            if p.is_alive():
+                alive = True
+            else:
                 try:
                     res = q.get(timeout=0.2)
                 except Exception:
-                    res = ("unknown", time.time() - t0, None)
-                break
-    if res is None:
-        p.kill()
+                    res = None
+        if res is not None:
+            if res[0] in ("sat", "unsat"):
+                return res[:3], True
+            unknown = res[:3]
+            race[race.index((p, q))] = (p, _Done())
+    if alive:
+        return None, False
+    return (unknown or ("unknown", 0.0, None)), True
+
+
+class _Done:
+    def get_nowait(self):
+        raise Exception("drained")
+
+    def get(self, timeout=0):
+        raise Exception("drained")
+
+
+def _kill(race):
+    for p, _ in race:
+        if p.is_alive():
+            p.kill()
         p.join()
+
+
+def hard_check(cons, extra, timeout, want_model=False):
+    """one query in forked children (one per strategy) that are killed at the deadline (z3's own timeout is not honoured inside nlsat)"""
+    race = _race(cons, extra, want_model)
+    t0 = time.time()
+    res = None
+    while time.time() - t0 < timeout:
+        res, fin = _poll(race)
+        if res is not None:
+            break
+        time.sleep(0.02)
+    _kill(race)
+    if res is None:
         return "timeout", timeout, None
-    p.join()
     return res
 
 
@@ -219,6 +265,9 @@ class SR:
             CTX.cons.append(r * d == 1)
             CTX.oblig.append(d != 0)
             CTX.memo[key] = r
+            rad = CTX.memo.get("radicand" + d.sexpr())
+            if rad is not None:          # reciprocal of a square root: (1/sqrt(e))^2 * e == 1 is implied; stating it spares nlsat the derivation
+                CTX.cons.append(r * r * rad == 1)
         return SR(s.e * CTX.memo[key])
 
     def __rtruediv__(s, o):
@@ -246,6 +295,7 @@ class SR:
             CTX.cons += [r >= 0, r * r == e]
             CTX.oblig.append(e >= 0)
             CTX.memo[key] = r
+            CTX.memo["radicand" + r.sexpr()] = e
         return SR(CTX.memo[key])
 
     def __abs__(s):
@@ -406,37 +456,26 @@ def discharge(rep: Report, label: str, paths, timeout=120, replay=None, expect_s
         for g in p["goals"]:
             name, neg = g[0], g[1]
             tasks.append((pi, name, neg, "control" if name in expect_sat else "goal"))
-    running = []          # (proc, queue, t0, task)
+    running = []          # (race, t0, task)
     pending = list(tasks)
     done = []
+    width = max(1, NCPU // len(STRATEGIES))
     while pending or running:
-        while pending and len(running) < NCPU:
+        while pending and len(running) < width:
             t = pending.pop(0)
             pi, name, neg, kind = t
-            q = _MP.Queue()
-            pr = _MP.Process(target=_solve, args=(list(paths[pi]["cons"]), [] if neg is None else [neg], q, True))
-            pr.start()
-            running.append((pr, q, time.time(), t))
+            running.append((_race(paths[pi]["cons"], [] if neg is None else [neg], True), time.time(), t))
         still = []
-        for pr, q, t0, t in running:
-            res = None
-            try:
-                res = q.get_nowait()
-            except Exception:
-                if not pr.is_alive():
-                    try:
-                        res = q.get(timeout=0.2)
-                    except Exception:
-                        res = ("unknown", time.time() - t0, None)
+        for race, t0, t in running:
+            res, fin = _poll(race)
             if res is not None:
-                pr.join()
+                _kill(race)
                 done.append((t, res))
             elif time.time() - t0 > timeout:
-                pr.kill()
-                pr.join()
+                _kill(race)
                 done.append((t, ("timeout", timeout, None)))
             else:
-                still.append((pr, q, t0, t))
+                still.append((race, t0, t))
         running = still
         if running:
             time.sleep(0.02)
